@@ -13,7 +13,9 @@ Items   == {"basic-auth", "api-basic-auth", "proxy", "credentials", "mitm-ca", "
 Forms   == {"flag", "env", "file"}
 Levels  == {"error", "info", "debug"}
 Modes   == {"none", "short-url", "url", "errors"}
-Shapes  == {"alnum", "escape", "colon", "at", "slash", "pct", "long"}
+\* eqUser / inUser: the password equals the user name / occurs inside it - the user name stays visible, so what must
+\* never be shown is the password in its own position (user:password), and the rendering must still be exact
+Shapes  == {"alnum", "escape", "colon", "at", "slash", "pct", "long", "eqUser", "inUser"}
 Traffic == {"plain", "connect", "refused", "upstream-error"}
 \* a configuration that parses but is refused at start-up for another reason: the refusal is part of the start-up log
 \*   dup-exact / dup-host / dup-port / dup-global: a second --credentials entry (with its own password) clashing with the first
@@ -27,6 +29,7 @@ Cfgs == { c \in [item : Items, form : Forms, level : Levels, mode : Modes, shape
             /\ (c.refusal = "missing-pac" => c.item # "proxy")                          \* --pac and --proxy exclude each other
             \* key material has one shape; an upstream error needs an upstream
             /\ (c.item \in {"mitm-ca", "tls"} => c.shape = "long")
+            /\ (c.shape \in {"eqUser", "inUser"} => c.refusal = "none")
             /\ (c.traffic = "upstream-error" => c.item \in {"proxy", "credentials"})
             /\ (c.item = "api-basic-auth" => c.traffic = "plain") }
 
@@ -42,7 +45,8 @@ Expect(c) == [rendering |-> Rendering(c.item), startupLog |-> ShownAtStartup(c) 
 
 \* always exercised: every item at every log level
 Must == { c \in Cfgs : /\ c.mode = "url" /\ c.traffic = "plain"
-                       /\ c.shape = (IF c.item \in {"mitm-ca", "tls"} THEN "long" ELSE "at")
+                       /\ \/ c.shape = (IF c.item \in {"mitm-ca", "tls"} THEN "long" ELSE "at")
+                          \/ c.shape \in {"eqUser", "inUser"} /\ c.refusal = "none" /\ c.level = "info"
                        /\ \/ c.form = "flag" /\ c.refusal = "none"
                           \/ c.refusal \in {"dup-exact", "dup-host", "dup-port", "dup-global"}     \* every form and level
                           \/ c.refusal \in {"bad-address", "missing-pac", "key-mismatch"} /\ c.form = "flag" /\ c.level = "info" }
